@@ -384,6 +384,8 @@ func (x *exec) binop(op token.Token, a, b Value, xt, yt types.Type, s *State, po
 		case token.ADD:
 			r := c.App("s.concat", Str, at, bt)
 			r.AddFact(c.Eq(c.App("s.len", Int, r), c.Add(e.strLen(at), e.strLen(bt))))
+			// a concatenation is safe to emit iff both parts are (spec builtin safe_)
+			r.AddFact(c.Eq(c.App("s.safe", Bool, r), c.And(c.App("s.safe", Bool, at), c.App("s.safe", Bool, bt))))
 			return r
 		case token.LSS:
 			return e.strLess(at, bt)
